@@ -103,6 +103,19 @@ impl AIDGenerator {
     }
 }
 
+#[cfg(feature = "verif")]
+impl AIDGenerator {
+    /// A generator whose next block of action ids starts at `next_alloc` (a multiple of the block
+    /// length, at most 2^40), so that the wrap-around can be reached.
+    pub fn verif_with_next_alloc(next_alloc: u64) -> AIDGenerator {
+        AIDGenerator {
+            next_alloc,
+            curr_index: ACTION_ID_PREALLOC_LEN,
+            action_ids: [0u64; ACTION_ID_PREALLOC_LEN],
+        }
+    }
+}
+
 // (next_alloc, aids)
 fn generate_aids(next_alloc: u64) -> (u64, [u64; ACTION_ID_PREALLOC_LEN]) {
     // Check if we need to wrap
@@ -170,6 +183,18 @@ impl MIDGenerator {
     }
 }
 
+#[cfg(feature = "verif")]
+impl MIDGenerator {
+    /// A generator for the (unshifted) action id whose next block of message ids starts at
+    /// `next_alloc` (a multiple of the block length, at most 2^24).
+    pub fn verif_with_next_alloc(action_id: u64, next_alloc: u64) -> MIDGenerator {
+        MIDGenerator {
+            next_alloc,
+            ..MIDGenerator::new(action_id << MESSAGE_ID_SHIFT)
+        }
+    }
+}
+
 // (next_alloc, mids)
 fn generate_mids(next_alloc: u64) -> (u64, [u64; MESSAGE_ID_PREALLOC_LEN]) {
     // Check if we need to wrap
@@ -231,6 +256,12 @@ pub struct ActionID {
 }
 
 impl ActionID {
+    /// The action id as a number (the first 5 bytes of the transaction id).
+    #[cfg(feature = "verif")]
+    pub fn verif_raw(&self) -> u64 {
+        self.action_id
+    }
+
     fn from_transaction_id(trans_id: u64) -> ActionID {
         // The ACTUAL action id
         let shifted_action_id = trans_id >> MESSAGE_ID_SHIFT;
